@@ -1,0 +1,136 @@
+//go:build verif
+// +build verif
+
+package index
+
+// Verification hooks (build tag `verif`): structural dump of the index for the correspondence harness.
+// Add-only; nothing here is compiled without the tag.  Must only be called while no writer is active.
+
+import (
+	"math"
+	"sort"
+	"sync/atomic"
+
+	uuid "github.com/satori/go.uuid"
+)
+
+type VerifEdge struct {
+	To       int // serial of the target vertex in this dump
+	ToId     uuid.UUID
+	Deleted  bool   // target is tombstoned
+	DistBits uint32 // cached distance, float32 bit pattern
+}
+
+type VerifVertex struct {
+	Serial   int
+	Id       uuid.UUID
+	Level    int
+	Deleted  bool
+	InMap    bool // reachable through the id map
+	Vector   []uint32
+	Metadata map[string]string // nil and empty both reported as empty
+	Edges    [][]VerifEdge     // per level, sorted by target id
+}
+
+type VerifIndexDump struct {
+	Len        int
+	BytesSize  uint64 // the data-bytes counter (without the link estimate)
+	TotalBytes uint64 // BytesSize()
+	Entry      int    // serial of the entry point, -1 = nil
+	EntryId    uuid.UUID
+	Vertices   []VerifVertex // map members sorted by id first, then tombstoned vertices still linked
+	Config     VerifConfig
+}
+
+type VerifConfig struct {
+	M, MMax, MMax0, Ef, EfConstruction      int
+	Heuristic, ExtendCandidates, KeepPruned bool
+	LevelMultiplier                         float32
+}
+
+func (this *Hnsw) VerifConfig() VerifConfig {
+	c := this.config
+	return VerifConfig{M: c.m, MMax: c.mMax, MMax0: c.mMax0, Ef: c.ef, EfConstruction: c.efConstruction,
+		Heuristic: c.searchAlgorithm == HnswSearchHeuristic, ExtendCandidates: c.heuristicExtendCandidates,
+		KeepPruned: c.heuristicKeepPruned, LevelMultiplier: c.levelMultiplier}
+}
+
+func (this *Hnsw) VerifDump() VerifIndexDump {
+	d := VerifIndexDump{Len: this.Len(), BytesSize: atomic.LoadUint64(&this.bytesSize), TotalBytes: this.BytesSize(), Entry: -1, Config: this.VerifConfig()}
+	serial := map[*hnswVertex]int{}
+	var order []*hnswVertex
+	var members []*hnswVertex
+	for _, shard := range this.vertices {
+		for _, v := range shard {
+			members = append(members, v)
+		}
+	}
+	sort.Slice(members, func(i, j int) bool { return uuidLess(members[i].id, members[j].id) })
+	for _, v := range members {
+		serial[v] = len(order)
+		order = append(order, v)
+	}
+	inMap := len(order)
+	// tombstoned (or otherwise unmapped) vertices still reachable through edges / the entry point
+	add := func(v *hnswVertex) {
+		if v == nil {
+			return
+		}
+		if _, ok := serial[v]; !ok {
+			serial[v] = len(order)
+			order = append(order, v)
+		}
+	}
+	entry := (*hnswVertex)(atomic.LoadPointer(&this.entrypoint))
+	add(entry)
+	for i := 0; i < len(order); i++ {
+		v := order[i]
+		for l := range v.edges {
+			var ns []*hnswVertex
+			for n := range v.edges[l] {
+				ns = append(ns, n)
+			}
+			sort.Slice(ns, func(a, b int) bool { return uuidLess(ns[a].id, ns[b].id) })
+			for _, n := range ns {
+				add(n)
+			}
+		}
+	}
+	if entry != nil {
+		d.Entry = serial[entry]
+		d.EntryId = entry.id
+	}
+	for i, v := range order {
+		vv := VerifVertex{Serial: i, Id: v.id, Level: v.level, Deleted: v.isDeleted(), InMap: i < inMap, Metadata: map[string]string{}}
+		for _, x := range v.vector {
+			vv.Vector = append(vv.Vector, math.Float32bits(x))
+		}
+		for k, x := range v.metadata {
+			vv.Metadata[k] = x
+		}
+		for l := range v.edges {
+			var es []VerifEdge
+			for n, dist := range v.edges[l] {
+				es = append(es, VerifEdge{To: serial[n], ToId: n.id, Deleted: n.isDeleted(), DistBits: math.Float32bits(dist)})
+			}
+			sort.Slice(es, func(a, b int) bool {
+				if es[a].ToId != es[b].ToId {
+					return uuidLess(es[a].ToId, es[b].ToId)
+				}
+				return es[a].To < es[b].To
+			})
+			vv.Edges = append(vv.Edges, es)
+		}
+		d.Vertices = append(d.Vertices, vv)
+	}
+	return d
+}
+
+func uuidLess(a, b uuid.UUID) bool {
+	for i := range a {
+		if a[i] != b[i] {
+			return a[i] < b[i]
+		}
+	}
+	return false
+}
